@@ -190,7 +190,7 @@ func c11Run(rc *RunCtx) *Violation {
 			return Step{K: "tick", A: r.Intn(len(tickDur))}, true
 		default:
 			sec := []int{0, 0, 6, 3}[r.Intn(4)]
-			return Step{K: "smprestart", B: r.Intn(2), C: sec, D: r.Intn(6)}, true
+			return Step{K: "smprestart", A: r.Intn(3), B: r.Intn(2), C: sec, D: r.Intn(6)}, true
 		}
 	}
 	closeRun := func() *Violation {
@@ -233,6 +233,15 @@ func c11Run(rc *RunCtx) *Violation {
 				continue
 			}
 			i := run.init
+			if s.A%3 == 2 {
+				// counter-request: the side that is being asked does not answer but starts a run of
+				// its own (both users press "authenticate"); roles swap, the former initiator is asked
+				i = 1 - run.init
+				if !ask[i] {
+					continue
+				}
+				rc.Probe("counter_request")
+			}
 			oldRun, oldAsk := run, ask
 			if s.D%3 == 1 {
 				// the randomness source fails while the new request is being made
